@@ -40,23 +40,10 @@ Definition mkans_ (s c r o : rhex) (p : rproof) : answer :=
   mkans (mkts (hexf_of s) (hexf_of c) (hexf_of r) (hexf_of o)) p.
 
 (* issuerData.credentialStatus after JSON decoding *)
-Inductive rstatus := SObj (parsed : option (string * limbs)) | SOther.
-Definition status_of (r : rstatus) : raw_status :=
-  match r with
-  | SObj None => RSObj None
-  | SObj (Some (ty, n)) => RSObj (Some (mkcs ty (zl n)))
-  | SOther => RSOther
-  end.
-
-(* parsed DIDs are numbered by the harness *)
-Definition DT := Z.
-Definition SigT := Z.
-
-Definition mkbjj_ (c : claim) (auth : option claim) (sig : option limbs) (mtp : option rproof)
-    (st : istate) (did : option int) (s : rstatus) : bjj_bundle DT SigT :=
-  mkbjj c auth (option_map zl sig) mtp st (option_map zi did) (status_of s).
-Definition mksmt_ (c : claim) (mtp : option rproof) (st : istate) (did : option int) : smt_bundle DT :=
-  mksmt c mtp st (option_map zi did).
+Inductive rstatus :=
+| SRaw (ty : string) (n : limbs)              (* object whose revocationNonce is the integer literal n *)
+| SObj (parsed : option (string * limbs))     (* any other object, as the library decodes it *)
+| SOther.
 
 (* environment of one case: the scripts of the stub resolvers *)
 Record env := mkenv_r {
@@ -72,17 +59,20 @@ Record tables := mktab_r {
   t_pos : list (list Z * Z);               (* poseidon.Hash inputs -> output *)
   t_sig : list ((Z * Z * Z * Z) * bool);   (* (pk.X, pk.Y, msg, sig) -> VerifyPoseidon *)
   t_idd : list ((Z * Z) * option Z);       (* (DID number, state) -> core.IDFromDID(did?state=..).BigInt() *)
-  t_gen : list ((Z * Z) * option bool)     (* (id, state) -> core.CheckGenesisStateID; None = error *)
+  t_gen : list ((Z * Z) * option bool);    (* (id, state) -> core.CheckGenesisStateID; None = error *)
+  t_jrt : list (Z * option Z)              (* integer literal -> encoding/json any/float64 -> uint64 round trip *)
 }.
 Definition mktab (q : limbs) (pos : list (list limbs * limbs))
     (sg : list ((limbs * limbs * limbs * limbs) * bool))
     (idd : list ((int * limbs) * option limbs))
-    (gen : list ((limbs * limbs) * option bool)) : tables :=
+    (gen : list ((limbs * limbs) * option bool))
+    (jrt : list (limbs * option limbs)) : tables :=
   mktab_r (zl q)
     (map (fun x => (map zl (fst x), zl (snd x))) pos)
     (map (fun x => let '(a, b, c, d) := fst x in ((zl a, zl b, zl c, zl d), snd x)) sg)
     (map (fun x => ((zi (fst (fst x)), zl (snd (fst x))), option_map zl (snd x))) idd)
-    (map (fun x => ((zl (fst (fst x)), zl (snd (fst x))), snd x)) gen).
+    (map (fun x => ((zl (fst (fst x)), zl (snd (fst x))), snd x)) gen)
+    (map (fun x => (zl (fst x), option_map zl (snd x))) jrt).
 
 (* ---------------- lookups ---------------- *)
 Fixpoint zlist_eqb (a b : list Z) : bool :=
@@ -132,6 +122,39 @@ Definition resolve_did_e (E : env) (d st : Z) : did_answer :=
 (* the stub status resolvers ignore their argument *)
 Definition registry_e (E : env) : registry :=
   map (fun x => (fst x, (fun _ : cred_status => snd x))) (e_reg E).
+
+Fixpoint look1 {V} (k : Z) (t : list (Z * V)) : option V :=
+  match t with
+  | [] => None
+  | (a, b) :: r => if Z.eqb a k then Some b else look1 k r
+  end.
+Definition json_rt_t (T : tables) (n : Z) : option Z :=
+  match look1 n (t_jrt T) with Some o => o | None => None end.
+
+(* an integer literal that is not in the round-trip table is an ORACLE MISS: it is turned
+   into the one input on which the model panics, so that it counts as a disagreement whenever
+   the model consults the status entry *)
+Definition status_of (T : tables) (r : rstatus) : raw_status :=
+  match r with
+  | SRaw ty n =>
+      match look1 (zl n) (t_jrt T) with
+      | Some o => status_after_json (fun _ => o) ty (zl n)
+      | None => RSPtr None
+      end
+  | SObj None => RSObj None
+  | SObj (Some (ty, n)) => RSObj (Some (mkcs ty (zl n)))
+  | SOther => RSOther
+  end.
+
+(* parsed DIDs are numbered by the harness *)
+Definition DT := Z.
+Definition SigT := Z.
+
+Definition mkbjj_ (T : tables) (c : claim) (auth : option claim) (sig : option limbs) (mtp : option rproof)
+    (st : istate) (did : option int) (s : rstatus) : bjj_bundle DT SigT :=
+  mkbjj c auth (option_map zl sig) mtp st (option_map zi did) (status_of T s).
+Definition mksmt_ (c : claim) (mtp : option rproof) (st : istate) (did : option int) : smt_bundle DT :=
+  mksmt c mtp st (option_map zi did).
 
 (* ---------------- closure of the tables (oracle-miss detection) ---------------- *)
 Section Closed.
